@@ -82,6 +82,21 @@ pub struct Txs { pub pid: u16, pub by_num: HashMap<u64, Transaction>, pub num_of
 impl Txs {
     pub fn new(pid: u16) -> Txs { Txs { pid, by_num: HashMap::new(), num_of: HashMap::new() } }
     /// the transaction `t` (created on first use; every transaction writes its own stream)
+    /// like `get`, with a payload of `plen` bytes (fillers that roll segments over)
+    pub fn get_with_payload(&mut self, t: u64, plen: usize) -> Transaction {
+        let pk = Uuid::new_v4();
+        let ev = NewEvent {
+            event_id: uuid_v7_with_partition_hash(uuid_to_partition_hash(pk)),
+            stream_id: StreamId::new(format!("p{}-t{t}", self.pid)).unwrap(),
+            stream_version: ExpectedVersion::Any, event_name: "e".into(), timestamp: 1_700_000_000_000_000_000,
+            metadata: vec![], payload: vec![t as u8; plen],
+        };
+        let mut evs: SmallVec<[NewEvent; 4]> = SmallVec::new(); evs.push(ev);
+        let x = Transaction::new(pk, self.pid, evs).unwrap();
+        self.num_of.insert(x.transaction_id(), t);
+        self.by_num.insert(t, x.clone());
+        x
+    }
     pub fn get(&mut self, t: u64) -> Transaction {
         if let Some(x) = self.by_num.get(&t) { return x.clone(); }
         let pk = Uuid::new_v4();
